@@ -73,6 +73,21 @@ struct CC_ : state_machine_def<CC_> {
   template<class F,class Ev> void no_transition(Ev const&,F&,int){ g_log += "NT "; }
 };
 typedef BE<CC_> CC;
+// bounded (circular) message queue filled to its capacity while the dispatched event's own action submits one more (C20 lifetime, C04):
+// the event under dispatch must stay alive and unchanged until its behaviours return, and no pending event may be lost
+#if defined(CFG_back)
+#include <boost/msm/back/queue_container_circular.hpp>
+struct kick {}; struct tick { int n; int* alive; tick(int n_=0,int* a=nullptr):n(n_),alive(a){ if(alive) ++*alive; } tick(tick const& o):n(o.n),alive(o.alive){ if(alive) ++*alive; } ~tick(){ if(alive) --*alive; n = -1; } };
+struct RB_ : state_machine_def<RB_> {
+  struct S : state<> {};
+  struct Kick { template<class F,class A,class B> void operator()(kick const&,F& f,A&,B&){ f.process_event(tick(1, f.alive)); f.process_event(tick(2, f.alive)); } };
+  struct Tick { template<class F,class A,class B> void operator()(tick const& t,F& f,A&,B&){ int before = t.n; if (t.n == 1) f.process_event(tick(3, f.alive)); g_log += "tick" + std::to_string(before) + (t.n == before ? " " : "(changed-under-dispatch) "); } };
+  typedef S initial_state; int* alive = nullptr;
+  struct transition_table : mpl::vector< Row<S,kick,none,Kick,none>, Row<S,tick,none,Tick,none> > {};
+  template<class F,class Ev> void no_transition(Ev const&,F&,int){ g_log += "NT "; }
+};
+typedef msm::back::state_machine<RB_, msm::back::queue_container_circular> RB;
+#endif
 // exception_caught submits an event while the failing step already queued another one (C04: "from exception_caught"): both must wait
 // until the step is over and keep their submission order
 #include <stdexcept>
@@ -120,6 +135,10 @@ int main(int argc, char** argv) {
     report("root-start.completion-first", g_log.find("c l") != std::string::npos && g_log.find("k") == std::string::npos, "C10", "log=[" + g_log + "]"); }
   { CC m; m.start(); g_log.clear(); m.process_event(go());
     report("completion-chain.event-raised-inside-waits-for-the-chain", g_log == "S2.entry{ } S3.entry S4.entry ", "C10,C04", "log=[" + g_log + "]"); }
+#if defined(CFG_back)
+  { int alive = 0; { RB m; m.alive = &alive; m.get_message_queue().set_capacity(2); m.start(); g_log.clear(); m.process_event(kick()); }
+    report("circular-queue.event-under-dispatch-stays-alive", g_log == "tick1 tick2 tick3 " && alive == 0, "C20,C04", "log=[" + g_log + "] live-events-after-destruction=" + std::to_string(alive)); }
+#endif
   { XM m; m.start(); g_log.clear(); m.process_event(boom());
     report("submit.exception_caught", g_log == "action{ } caught{ } note1 note2 ", "C04,C12", "log=[" + g_log + "]"); }
   return finish();
